@@ -80,8 +80,7 @@ def _tuple_const(call):
     return None
 
 
-def rule_r1(ctx):
-    rid = "C03.R1"
+def rule_r1(ctx, rid="C03.R1"):
     ctx.r.rule(rid, "decision table of build_response_header: every feasible path over the atoms version/Connection/Content-Length-known/has_body/already-closing meets the RFC oracle")
     p = ctx.p
     f = p.func("task.Task.build_response_header")
@@ -587,6 +586,7 @@ def rule_buffers(ctx):
     of the file-based buffers incl. the migration between representations)."""
     from . import c17
     c17.rule_r1(ctx, rid="C03.R10")
+    c17.rule_r2(ctx, rid="C03.R10")
     c17.rule_r3(ctx, rid="C03.R10")
     c17.rule_r4(ctx, rid="C03.R10")
 
